@@ -149,9 +149,10 @@ Proof.
 Qed.
 
 Definition sweep_fun (m : Z) : bool := forallb (fun k => fuse_mode (stat_mode k m) =? posix_mode k m) kinds.
-Definition sweep : bool := check_upto (Z.to_nat 4096) sweep_fun.
 
-Lemma sweep_ok : sweep = true.
+(* stated literally in the form [check_upto_spec] consumes, so that the kernel never has to convert it
+   (it is checked once, by the VM) *)
+Lemma sweep_ok : check_upto (Z.to_nat 4096) sweep_fun = true.
 Proof. vm_compute. reflexivity. Qed.
 
 Lemma stat_mode_low : forall k m, stat_mode k m = stat_mode k (Z.land m 4095).
